@@ -207,6 +207,16 @@ fn run(input: RunInput) -> ScenFuture {
         let mut cfg = base_config(idle_ms, Some(ka_ms));
         cfg.quic.as_mut().unwrap().max_concurrent_bidi_streams = Some(max_bidi);
         cfg.connect_timeout_ms = Some(3000);
+        // request deadlines far beyond anything that happens in a run: they must not change what
+        // is delivered (headers included)
+        if w.flag("huge_default_timeouts", 0.3) {
+            cfg.outbound_request_timeout_ms = Some(3_600_000);
+            cfg.inbound_request_timeout_ms = Some(3_600_000);
+        }
+        // a frame limit on every node, smaller than some of the generated messages: such an RPC
+        // fails (C15) - and must still be delivered to a handler at most once
+        let frame_limit = w.flag("frame_limit", 0.3).then(|| w.param("max_frame_size", 3_000, 300_000) as usize);
+        cfg.max_frame_size = frame_limit;
         // flow-control knobs: small windows force the blocked-on-credit paths of every stream
         if w.flag("small_windows", 0.35) {
             let q = cfg.quic.as_mut().unwrap();
@@ -452,6 +462,18 @@ fn run(input: RunInput) -> ScenFuture {
         }
         if !faulty {
             for o in &outcomes {
+                // with a frame limit, an RPC with an oversized frame fails by design (C15)
+                if let (Some(l), Err(_)) = (frame_limit, &o.result) {
+                    let rq = gen_request(w.seed, o.nonce, tier, big_ok);
+                    let rs = gen_response(w.seed, o.nonce, tier, big_ok);
+                    let hq: Vec<(String, String)> = rq.headers.iter().map(|(k, v)| (k.clone(), v.clone())).collect();
+                    let hs: Vec<(String, String)> = rs.headers.iter().map(|(k, v)| (k.clone(), v.clone())).collect();
+                    let sizes = [crate::model::wire::request_header(&rq.route, &hq).len(), rq.body.len(), crate::model::wire::response_header(200, &hs).len(), rs.body.len()];
+                    if sizes.iter().any(|s| *s > l) {
+                        w.probe("rpc-refused-by-frame-limit");
+                        continue;
+                    }
+                }
                 if let Err(e) = &o.result {
                     w.violate("rpc-failed-without-faults", "rpc", format!("nonce {} n{}>n{} failed on a fault-free network: {e}", o.nonce, o.caller + 1, o.callee + 1));
                     break;
